@@ -1,6 +1,7 @@
 package main
 
 import (
+	"fmt"
 	"strings"
 
 	"golang.org/x/tools/go/ssa"
@@ -19,13 +20,40 @@ func runC12(e *Engine, tier Tier) *PropRun {
 		"sql/parser.(*Parser).isStatementStartingKeyword": true, "sql/parser.(*Parser).isType": true,
 	}
 	fns := e.sourceFns(func(fn *ssa.Function, file string) bool { return want[fnKey(fn)] })
+	// "loses no good statement": an iteration of synchronize that goes round again has not passed over a statement
+	// separator - at every call of advance inside the skipping loop the token under the cursor is not a semicolon
+	// (the call that consumes the separator is followed by the return and is outside the loop).
+	opts.CheckTags = map[string]bool{"": true, "C12": true}
+	opts.OnCall = func(fr *Frame, ins ssa.CallInstruction, callee *ssa.Function, args []Val) {
+		root := fr.root()
+		if callee == nil || fr != root || fnKey(root.fn) != "sql/parser.(*Parser).synchronize" || fnKey(callee) != "sql/parser.(*Parser).advance" {
+			return
+		}
+		if fr.loopOf(ins.Block()) == nil {
+			return
+		}
+		env := newSpecEnv(fr, root.fn)
+		env.st, env.old = fr.cur.st, root.entry
+		env.bindParams(root.fn, root.params)
+		c, err := parseClause("recv.currentToken.Type != models.TokenTypeSemicolon")
+		if err != nil {
+			return
+		}
+		t, err := env.evalBool(c.Expr)
+		if err != nil {
+			fr.q.note("C12 separator clause: " + err.Error())
+			t = "false"
+		}
+		k := fr.callOrdinal("sep:" + fnKey(callee))
+		fr.q.addObligation(fr, "schema", fmt.Sprintf("passes_over_no_separator@advance#%d", k), ins.Pos(), fr.cur.reach, t)
+	}
 	rs := e.verifyAll(fns, opts, nil)
 	return &PropRun{
 		Results: rs, FUC: fucList(rs),
 		Claim: func(o *Obligation) bool {
-			return o.Kind == "dec" || o.Kind == "post" || o.Kind == "inv-init" || o.Kind == "inv-pres" || (o.Kind == "pre" && strings.Contains(o.Fn, "ecover"))
+			return o.Kind == "schema" || o.Kind == "dec" || o.Kind == "post" || o.Kind == "inv-init" || o.Kind == "inv-pres" || (o.Kind == "pre" && strings.Contains(o.Fn, "ecover"))
 		},
-		Explanation: "Termination of recovery parsing for every token sequence (with or without an end marker): the main loop of parseWithRecovery proves the variant len(tokens) - currentPos from the contracts 'advance moves the cursor by exactly one', 'a statement that parsed successfully consumed at least one token' (parseStatement, parseWithStatement), the forced advance when a failed statement consumed nothing, and synchronize's own variant and monotonicity. The per-call state contracts (positions cleared, depth/ctx/configuration unchanged on every exit) are proved for the recovery entry points as well.",
+		Explanation: "Termination of recovery parsing for every token sequence (with or without an end marker): the main loop of parseWithRecovery proves the variant len(tokens) - currentPos from the contracts 'advance moves the cursor by exactly one', 'a statement that parsed successfully consumed at least one token' (parseStatement, parseWithStatement), the forced advance when a failed statement consumed nothing, and synchronize's own variant and monotonicity. No good statement is skipped by resynchronisation: at every call of advance inside the skipping loop of synchronize (an iteration that goes round again) the token under the cursor is not a semicolon, from isType's functional contract - so the cursor stops right after the first separator and the next statement is parsed from its first token. The per-call state contracts (positions cleared, depth/ctx/configuration unchanged on every exit) are proved for the recovery entry points as well.",
 		NotCovered:  []string{"errors reported exactly when strict parsing fails (needs the shared statement-level spec function; not built)", "per-segment equality with strict parsing (needs locality of parseStatement, i.e. the grammar)", "each error naming a token of its own statement beyond TokenIdx = position at statement start (by construction, not a proved postcondition)", "termination of the individual parse functions (C02 recursion measure; loops inside them carry no variants yet)"},
 		Assumptions: []string{"the parse functions called by parseStatement terminate (C02) and satisfy the default parser contract (C08)"},
 	}
